@@ -6,7 +6,7 @@ CONSTANTS
   Tokens = {}
   AppStates = {}
   NodeIds = {"N1","N2"}
-  Enabled = {"Authorize","Remove","Nid"}
+  Enabled = {"Authorize","Remove","Nid","KeyKind"}
   MaxGen = 4
   CfgSW = FALSE
   CfgNidl = TRUE
